@@ -319,6 +319,9 @@ impl Prop for C11 {
             1 => Some(String::new()),
             2 => Some("x".repeat(200)),
             3 => Some("dGhlIHNhbXBsZSBub25jZQ==".to_string()),
+            // lengths at which key + GUID (36 bytes) ends at, just before or just after a SHA-1
+            // padding boundary (remainders 55, 56, 57, 63, 0, 1 modulo 64)
+            4 => Some((0..[19usize, 20, 21, 27, 28, 29, 83, 84, 85, 91, 92, 93, 147, 148, 149][rng.usize_below(15)]).map(|_| (0x21 + rng.below(0x5e) as u8) as char).collect()),
             _ => Some((0..rng.range(1, 30)).map(|_| (0x21 + rng.below(0x5e) as u8) as char).collect()),
         };
         let nonblocking = rng.chance(1, 2);
